@@ -281,6 +281,7 @@ func runC14(c *Ctx) {
 	_ = n
 	checkSourcePrecedencePairs(c)
 	checkSourceMatchRequiresPeerAndPartition(c)
+	checkPeeredSourceNeedsBundle(c)
 }
 
 // sliceOnlyRead: the slice value is only indexed, measured or windowed again
@@ -593,5 +594,87 @@ func checkSourceMatchRequiresPeerAndPartition(c *Ctx) {
 		default:
 			r.Hold("C14.5", construct, p.FuncPos(f), "true only below the "+sel.what+"-equal edge")
 		}
+	}
+}
+
+
+// C14.6: a peered source is turned into a principal only with its peer's trust bundle in hand.
+// The bundle supplies the trust domain and exported partition of the SPIFFE pattern; without it
+// the pattern falls back to the LOCAL trust domain and names the like-named local service. So
+// every use of the looked-up bundle lies below "found" (comma-ok true) or "source is local"
+// (SourcePeer == "").
+func checkPeeredSourceNeedsBundle(c *Ctx) {
+	p, r := c.P, c.R
+	n := 0
+	for _, f := range p.SrcFuncs(xdsPkg) {
+		for _, b := range f.Blocks {
+			for _, in := range b.Instrs {
+				lk, ok := in.(*ssa.Lookup)
+				if !ok || core.AccessOf(lk.Index).LastField() != "SourcePeer" {
+					continue
+				}
+				if !strings.Contains(core.ShortType(lk.X.Type()), "PeeringTrustBundle") {
+					continue
+				}
+				n++
+				construct := core.FuncName(f) + "/bundle[SourcePeer]"
+				pos := p.Pos(lk.Pos())
+				if !lk.CommaOk {
+					r.Violate("C14.6", construct, pos, "the trust bundle of a source peer is looked up without testing that it was found: a peered intention whose bundle has not arrived is converted with a nil bundle, its principal falls back to the local trust domain and matches the like-named LOCAL service")
+					continue
+				}
+				var okV, val ssa.Value
+				if lk.Referrers() != nil {
+					for _, rr := range *lk.Referrers() {
+						if ex, ok := rr.(*ssa.Extract); ok {
+							if ex.Index == 1 {
+								okV = ex
+							} else {
+								val = ex
+							}
+						}
+					}
+				}
+				var accepted []core.Edge
+				if okV != nil {
+					te, _ := core.CondEdges(okV)
+					accepted = append(accepted, te...)
+				}
+				accepted = append(accepted, core.GuardEdges(f, 1, func(cv core.CmpView) (bool, bool) {
+					if cv.Op != token.EQL && cv.Op != token.NEQ {
+						return false, false
+					}
+					for _, pair := range [][2]ssa.Value{{cv.X, cv.Y}, {cv.Y, cv.X}} {
+						if k, ok := core.ConstString(pair[0]); ok && k == "" && core.AccessOf(pair[1]).LastField() == "SourcePeer" {
+							return cv.Op == token.EQL, cv.Op == token.NEQ
+						}
+					}
+					return false, false
+				})...)
+				bad := ""
+				if val != nil {
+					core.ForwardUses(val, func(u ssa.Instruction, _ ssa.Value) {
+						ci, isCall := u.(ssa.CallInstruction)
+						if !isCall || u.Parent() != f {
+							return
+						}
+						if g := ci.Common().StaticCallee(); g == nil || !core.IsConsulFunc(g) {
+							return
+						}
+						if !core.CutMakesUnreachable(f, lk, accepted, u) {
+							bad = p.Pos(u.Pos())
+						}
+					})
+				}
+				if bad != "" || okV == nil {
+					r.Violate("C14.6", construct, pos, "the looked-up trust bundle is used at "+bad+" on a path on which the source is peered and its bundle was not found: the principal falls back to the local trust domain and matches the like-named LOCAL service")
+				} else {
+					r.Hold("C14.6", construct, pos, "the bundle is used only when found, or for a local source")
+				}
+			}
+		}
+	}
+	if n == 0 {
+		r.MissingInstance("C14.6", "<bundle lookups>", "no lookup of a trust bundle by SourcePeer found in agent/xds")
 	}
 }
